@@ -1232,6 +1232,18 @@ impl Prop for C07 {
         };
         let mut seq = gen_seq_case(rng, size, None);
         crate::gen::maybe_reverse_empty(rng, &mut seq);
+        if matches!(size, Size::Huge(_)) && rng.chance(1, 2) {
+            // a composite giant instead of a plain huge pair
+            let (o, n) = crate::gen::gen_composite(rng);
+            seq.old_range = (0, o.len());
+            seq.new_range = (0, n.len());
+            seq.old = o;
+            seq.new = n;
+            seq.index = IndexKind::Slice;
+            if seq.alg == Alg::Lcs {
+                seq.alg = Alg::Patience;
+            }
+        }
         if tier == Tier::Quick && matches!(size, Size::Huge(_)) && seq.alg == Alg::Lcs {
             // the quadratic table of LCS at this size belongs to the thorough tier
             seq.alg = Alg::Myers;
